@@ -9,7 +9,8 @@ ID = "C16"
 BUDGET = {"quick": 2400, "thorough": 40000}
 RULE = ("Dedicated generator: random nests of modules, submodules, main programs (with and without PROGRAM), external "
         "subprograms, contained subprograms and named/unnamed BLOCK constructs placed inside IF/DO/label-DO/non-block "
-        "DO constructs; per scope a random set of intrinsic-typed declarations whose names are drawn from intrinsic "
+        "DO constructs; per scope a random set of intrinsic-typed declarations (with and without '::', with DIMENSION / "
+        "EXTERNAL / ALLOCATABLE / POINTER / SAVE / TARGET / VOLATILE attributes or an initialisation) whose names are drawn from intrinsic "
         "names and ordinary names, USE statements (plain, ONLY, rename), and references name(args) with an admissible "
         "argument count in every scope. Oracle after create('f2008'); parse(P): the forest of symbol tables (name, "
         "children in order, data symbols, used modules; unnamed BLOCKs by order) equals the scope tree known by "
@@ -113,7 +114,22 @@ class G16:
                     names.append(nm)
             t = r.pick(TYPES)
             arr = "(10)"
-            self.emit("%s :: %s" % (t, ", ".join(self.sp(n) + arr for n in names)))
+            form = r.n(0, 9)
+            ents = lambda suffix: ", ".join(self.sp(n) + suffix for n in names)  # noqa: E731
+            if form <= 3:
+                self.emit("%s :: %s" % (t, ents(arr)))
+            elif form == 4:
+                self.emit("%s %s" % (t, ents(arr)))                                  # old style, no '::'
+            elif form == 5:
+                self.emit("%s, %s :: %s" % (t, r.pick(["dimension(10)", "dimension(2, 3), save"]), ents("")))
+            elif form == 6:
+                self.emit("%s, external :: %s" % (t, ents("")))                        # a user function of that name
+            elif form == 7:
+                self.emit("%s, %s :: %s" % (t, r.pick(["allocatable", "pointer", "allocatable, target"]), ents("(:)")))
+            elif form == 8:
+                self.emit("%s, %s :: %s" % (t, r.pick(["save", "target", "volatile", "save, target"]), ents(arr)))
+            else:
+                self.emit("%s :: %s" % (r.pick(["integer", "real"]), ents("(2) = 0")))
             sc.decl.update(names)
 
     def ref(self, sc):
